@@ -62,32 +62,80 @@ theorem Gmx2.withdraw_ok {cx : NumCtx} {cfg : Config Rat} {ps : Pool Rat} {lk sk
 
 /-- **GM minted × pool value per share = Σ over the deposited tokens of (amount × (1 − deposit fee factor) × price
     + that token's share of the price impact)**, where the fee factor is the positive-impact one iff the share is
-    positive, a negative share is charged in full and a positive share is capped by the impact pool (`creditOf`). -/
+    positive, a negative share is charged in full and a positive share is capped by the impact pool (`creditOf`): the long
+    side by the row's impact pool, the short side by what the long side left of it (`sideLeft`). -/
 theorem C17_v2_mint_value_per_share {cx : NumCtx} {cfg : Config Rat} {ps : Pool Rat} (hp : PoolPos ps) {lk sk : String}
     {s s' : State Rat} {la sa : Rat} {r : LPResult Rat} {tag : String}
     (h : deposit (ratOps pw) cx cfg ps lk sk s la sa = (.ok (r, tag), s')) :
     let total := la * ps.longPrice + sa * ps.shortPrice
+    let shareL := r.priceImpactUsd * (la * ps.longPrice) / total
+    let shareS := r.priceImpactUsd * (sa * ps.shortPrice) / total
     r.gmAmount * (ps.poolValue / ps.supply)
-        = sideValue cfg ps la ps.longPrice ps.shortPrice (r.priceImpactUsd * (la * ps.longPrice) / total)
-        + sideValue cfg ps sa ps.shortPrice ps.longPrice (r.priceImpactUsd * (sa * ps.shortPrice) / total) ∧
+        = sideValue cfg ps.impactPool la ps.longPrice ps.shortPrice shareL
+        + sideValue cfg (sideLeft ps.impactPool la ps.shortPrice shareL) sa ps.shortPrice ps.longPrice shareS ∧
       s'.amount = s.amount + r.gmAmount ∧ r.longAmount = la ∧ r.shortAmount = sa := by
   obtain ⟨_, _, hm, hs, _, _⟩ := Gmx2.deposit_ok h
   obtain ⟨_, _, hl, hsh, _, hv, _, _⟩ := mintAmount_ok hp hm
   exact ⟨hv, hs, hl, hsh⟩
 
-/-- **the credited price impact never exceeds the impact pool** (amount × price of the token it is paid in), nor the
-    impact itself; the default fee factors are 5 bp (positive impact) and 7 bp (negative impact). -/
-theorem C17_v2_positive_impact_capped (cfg : Config Rat) (ps : Pool Rat) (amount pin pout share : Rat) (hs : 0 < share)
+/-- **the credited price impact of one side never exceeds what is left of the impact pool** (amount × price of the token
+    it is paid in), nor the impact itself; the default fee factors are 5 bp (positive impact) and 7 bp (negative impact). -/
+theorem C17_v2_positive_impact_capped (cfg : Config Rat) (pool amount pin pout share : Rat) (hs : 0 < share)
     (ha : 0 < amount) :
-    sideValue cfg ps amount pin pout share ≤ amount * (1 - cfg.depositFeePos) * pin + ps.impactPool * pout ∧
-    sideValue cfg ps amount pin pout share ≤ amount * (1 - cfg.depositFeePos) * pin + share ∧
+    sideValue cfg pool amount pin pout share ≤ amount * (1 - cfg.depositFeePos) * pin + pool * pout ∧
+    sideValue cfg pool amount pin pout share ≤ amount * (1 - cfg.depositFeePos) * pin + share ∧
     Gen.gmx2DepositFeePos = 1152921504606847 / 2305843009213693952 ∧
     Gen.gmx2DepositFeeNeg = 6456360425798343 / 9223372036854775808 := by
   unfold sideValue
   rw [if_pos ha, if_pos hs]
   refine ⟨?_, ?_, by norm_num [Gen.gmx2DepositFeePos], by norm_num [Gen.gmx2DepositFeeNeg]⟩
-  · have := creditOf_le_cap (cap := ps.impactPool * pout) hs; linarith
-  · have := creditOf_le_impact share (ps.impactPool * pout); linarith
+  · have := creditOf_le_cap (cap := pool * pout) hs; linarith
+  · have := creditOf_le_impact share (pool * pout); linarith
+
+/-- **the positive price impact of a whole deposit is capped by the impact pool**: the long side draws `paidL` units (of the
+    short token) and the short side `paidS` units (of the long token) from the one impact pool of the row; both are
+    non-negative, **together they never exceed the pool**, and they are exactly what `C17_v2_mint_value_per_share` credits
+    (`creditOf = paid × price of the token paid`) whenever a side's share is positive. -/
+theorem C17_v2_positive_impact_capped_total {ps : Pool Rat} (hp : PoolPos ps) (la sa shareL shareS : Rat) :
+    let paidL := if la > 0 then paidOf shareL ps.shortPrice ps.impactPool else 0
+    let left := sideLeft ps.impactPool la ps.shortPrice shareL
+    let paidS := if sa > 0 then paidOf shareS ps.longPrice left else 0
+    0 ≤ paidL ∧ 0 ≤ paidS ∧ paidL + paidS ≤ ps.impactPool ∧ left = ps.impactPool - paidL ∧
+      (la > 0 → 0 < shareL → creditOf shareL (ps.impactPool * ps.shortPrice) = paidL * ps.shortPrice) ∧
+      (sa > 0 → 0 < shareS → creditOf shareS (left * ps.longPrice) = paidS * ps.longPrice) := by
+  intro paidL left paidS
+  have h0 := hp.impactPool
+  have hL0 : 0 ≤ paidL := by
+    show 0 ≤ (if la > 0 then paidOf shareL ps.shortPrice ps.impactPool else 0)
+    split
+    · exact paidOf_nonneg hp.shortPrice h0
+    · exact le_refl _
+  have hLle : paidL ≤ ps.impactPool := by
+    show (if la > 0 then paidOf shareL ps.shortPrice ps.impactPool else 0) ≤ _
+    split
+    · exact paidOf_le_pool h0
+    · exact h0
+  have hleft : left = ps.impactPool - paidL := by
+    show sideLeft ps.impactPool la ps.shortPrice shareL = ps.impactPool - (if la > 0 then paidOf shareL ps.shortPrice ps.impactPool else 0)
+    unfold sideLeft; split <;> simp
+  have hleft0 : 0 ≤ left := by rw [hleft]; linarith
+  have hS0 : 0 ≤ paidS := by
+    show 0 ≤ (if sa > 0 then paidOf shareS ps.longPrice left else 0)
+    split
+    · exact paidOf_nonneg hp.longPrice hleft0
+    · exact le_refl _
+  have hSle : paidS ≤ left := by
+    show (if sa > 0 then paidOf shareS ps.longPrice left else 0) ≤ _
+    split
+    · exact paidOf_le_pool hleft0
+    · exact hleft0
+  refine ⟨hL0, hS0, by rw [hleft] at hSle; linarith, hleft, ?_, ?_⟩
+  · intro ha hs
+    show _ = (if la > 0 then paidOf shareL ps.shortPrice ps.impactPool else 0) * _
+    rw [if_pos ha]; exact creditOf_eq_paid hp.shortPrice hs
+  · intro ha hs
+    show _ = (if sa > 0 then paidOf shareS ps.longPrice left else 0) * _
+    rw [if_pos ha]; exact creditOf_eq_paid hp.longPrice hs
 
 /-! ### redeemed amounts -/
 
@@ -112,12 +160,12 @@ theorem C17_v2_withdraw_value_per_share {cx : NumCtx} {cfg : Config Rat} {ps : P
 /-! ### same-bar round trip -/
 
 /-- value credited for one side is at most what was paid for it when its impact share is not positive -/
-theorem Gmx2.sideValue_le_paid {cfg : Config Rat} (hc : CfgOK cfg) (ps : Pool Rat) {amount pin pout share : Rat}
-    (hpin : 0 < pin) (hs : share ≤ 0) : sideValue cfg ps amount pin pout share ≤ max amount 0 * pin := by
+theorem Gmx2.sideValue_le_paid {cfg : Config Rat} (hc : CfgOK cfg) (pool : Rat) {amount pin pout share : Rat}
+    (hpin : 0 < pin) (hs : share ≤ 0) : sideValue cfg pool amount pin pout share ≤ max amount 0 * pin := by
   unfold sideValue
   by_cases ha : amount > 0
   · rw [if_pos ha, if_neg (not_lt.mpr hs), max_eq_left (le_of_lt ha)]
-    have h1 := creditOf_nonpos (cap := ps.impactPool * pout) hs
+    have h1 := creditOf_nonpos (cap := pool * pout) hs
     have h2 : 0 ≤ cfg.depositFeeNeg * amount * pin := by
       have := hc.dn0; positivity
     nlinarith
@@ -150,8 +198,9 @@ theorem C17_v2_roundtrip_partial {cx : NumCtx} {cfg : Config Rat} (hc : CfgOK cf
     apply div_nonpos_of_nonpos_of_nonneg (mul_nonpos_of_nonpos_of_nonneg himp hlu) (by linarith)
   have hsh2 : r.priceImpactUsd * (sa * ps.shortPrice) / (la * ps.longPrice + sa * ps.shortPrice) ≤ 0 := by
     apply div_nonpos_of_nonpos_of_nonneg (mul_nonpos_of_nonpos_of_nonneg himp hsu) (by linarith)
-  have h1 := Gmx2.sideValue_le_paid hc ps (amount := la) (pout := ps.shortPrice) hpL hsh1
-  have h2 := Gmx2.sideValue_le_paid hc ps (amount := sa) (pout := ps.longPrice) hpS hsh2
+  have h1 := Gmx2.sideValue_le_paid hc ps.impactPool (amount := la) (pout := ps.shortPrice) hpL hsh1
+  have h2 := Gmx2.sideValue_le_paid hc (sideLeft ps.impactPool la ps.shortPrice
+    (r.priceImpactUsd * (la * ps.longPrice) / (la * ps.longPrice + sa * ps.shortPrice))) (amount := sa) (pout := ps.longPrice) hpS hsh2
   rw [max_eq_left hla] at h1
   rw [max_eq_left hsa] at h2
   -- value of the redeemed shares ≤ value of the minted shares ≤ paid
@@ -176,11 +225,13 @@ theorem C17_v2_roundtrip_closed_form {cx : NumCtx} {cfg : Config Rat} {ps : Pool
     (hdep : deposit (ratOps pw) cx cfg ps lk sk s la sa = (.ok (r, tag), s1))
     (hwd : withdraw (ratOps pw) cx cfg ps lk sk s1 (some r.gmAmount) = (.ok r2, s2)) :
     let total := la * ps.longPrice + sa * ps.shortPrice
+    let shareL := r.priceImpactUsd * (la * ps.longPrice) / total
     r2.longAmount * ps.longPrice + r2.shortAmount * ps.shortPrice
       = (1 - cfg.withdrawFeeNeg) *
-        (sideValue cfg ps la ps.longPrice ps.shortPrice (r.priceImpactUsd * (la * ps.longPrice) / total)
-         + sideValue cfg ps sa ps.shortPrice ps.longPrice (r.priceImpactUsd * (sa * ps.shortPrice) / total)) := by
-  intro total
+        (sideValue cfg ps.impactPool la ps.longPrice ps.shortPrice shareL
+         + sideValue cfg (sideLeft ps.impactPool la ps.shortPrice shareL) sa ps.shortPrice ps.longPrice
+             (r.priceImpactUsd * (sa * ps.shortPrice) / total)) := by
+  intro total shareL
   obtain ⟨_, _, hm, _, _, _⟩ := Gmx2.deposit_ok hdep
   obtain ⟨_, _, _, _, _, hv, _, _⟩ := mintAmount_ok hp hm
   obtain ⟨_, _, ho, _, _, _⟩ := Gmx2.withdraw_ok hwd
@@ -205,22 +256,22 @@ theorem Gmx2.gm_nonneg {cfg : Config Rat} (hc : CfgOK cfg) {ps : Pool Rat} (hp :
     {r : LPResult Rat} {tag : String} (hm : mintAmount (ratOps pw) cfg ps la sa = .ok (r, tag)) : 0 ≤ r.gmAmount := by
   unfold mintAmount at hm
   simp only [bind_ok] at hm
-  obtain ⟨⟨impact, tag0⟩, _, lp, hlp, sp, hsp, gp, hgp, hpure⟩ := hm
-  obtain ⟨hl, _, _, hln⟩ := sidePart_ok hp hp.longPrice hp.shortPrice hlp
-  obtain ⟨hs, _, _, hsn⟩ := sidePart_ok hp hp.shortPrice hp.longPrice hsp
+  obtain ⟨⟨impact, tag0⟩, _, ⟨lp, left⟩, hlp, ⟨sp, left2⟩, hsp, gp, hgp, hpure⟩ := hm
+  obtain ⟨hl, hleft, _, _, hln⟩ := sidePart_ok hp hp.longPrice hp.shortPrice hlp
+  obtain ⟨hs, _, _, _, hsn⟩ := sidePart_ok hp hp.shortPrice hp.longPrice hsp
   simp only [pure, Except.pure, Except.ok.injEq, Prod.mk.injEq] at hpure
   obtain ⟨rfl, _⟩ := hpure
   have hk : 0 < ps.poolValue / ps.supply := div_pos hp.poolValue hp.supply
   -- each side's value is non-negative
-  have side_nonneg : ∀ (amount pin pout share : Rat), 0 < pin → 0 < pout → 0 ≤ amount →
+  have side_nonneg : ∀ (pool amount pin pout share : Rat), 0 ≤ pool → 0 < pin → 0 < pout → 0 ≤ amount →
       (amount > 0 → share < 0 → 0 ≤ (amount - (if share > 0 then cfg.depositFeePos else cfg.depositFeeNeg) * amount) * pin + share) →
-      0 ≤ sideValue cfg ps amount pin pout share := by
-    intro amount pin pout share hpin hpout ha0 hneg
+      0 ≤ sideValue cfg pool amount pin pout share := by
+    intro pool amount pin pout share hpool hpin hpout ha0 hneg
     unfold sideValue
     by_cases ha : amount > 0
     · rw [if_pos ha]
       by_cases hsh : share > 0
-      · have := creditOf_nonneg (cap := ps.impactPool * pout) hsh (mul_nonneg hp.impactPool (le_of_lt hpout))
+      · have := creditOf_nonneg (cap := pool * pout) hsh (mul_nonneg hpool (le_of_lt hpout))
         rw [if_pos hsh]
         have h1 : 0 ≤ (amount - cfg.depositFeePos * amount) * pin := by
           have : 0 ≤ amount - cfg.depositFeePos * amount := by nlinarith [hc.dp0, hc.dp1]
@@ -236,8 +287,14 @@ theorem Gmx2.gm_nonneg {cfg : Config Rat} (hc : CfgOK cfg) {ps : Pool Rat} (hp :
           have : 0 ≤ amount - cfg.depositFeeNeg * amount := by nlinarith [hc.dn0, hc.dn1]
           positivity
     · rw [if_neg ha]
-  have v1 := side_nonneg la ps.longPrice ps.shortPrice _ hp.longPrice hp.shortPrice hla hln
-  have v2 := side_nonneg sa ps.shortPrice ps.longPrice _ hp.shortPrice hp.longPrice hsa hsn
+  have hleft0 : 0 ≤ left := by
+    rw [hleft]; unfold sideLeft; split
+    · have := paidOf_le_pool (share := impact * (la * ps.longPrice) / (la * ps.longPrice + sa * ps.shortPrice))
+        (priceOut := ps.shortPrice) hp.impactPool
+      linarith
+    · exact hp.impactPool
+  have v1 := side_nonneg ps.impactPool la ps.longPrice ps.shortPrice _ hp.impactPool hp.longPrice hp.shortPrice hla hln
+  have v2 := side_nonneg left sa ps.shortPrice ps.longPrice _ hleft0 hp.shortPrice hp.longPrice hsa hsn
   rw [← hl] at v1
   rw [← hs] at v2
   have m1 : 0 ≤ optMint lp := by
@@ -359,4 +416,20 @@ example : withdraw (ratOps Gmx2.sq) NumCtx.exact Gmx2.defaultCfg Gmx2.demoPool "
     = (.error .demeter, { Gmx2.demoState with amount := 5 }) :=
   C17_v2_no_over_redeem _ _ _ _ _ _ 6 (by norm_num)
 
+/-! ### one impact pool for both tokens of a deposit (repaired code) -/
+
+/-- value credited beyond the fee-reduced deposit -/
+def Gmx2.bonusOf (cfg : Config Rat) (ps : Pool Rat) (la sa : Rat) : Option Rat :=
+  match mintAmount (ratOps Gmx2.sq) cfg ps la sa with
+  | .ok (r, _) => some (r.gmAmount * (ps.poolValue / ps.supply) - (la * (1 - cfg.depositFeePos) * ps.longPrice + sa * (1 - cfg.depositFeePos) * ps.shortPrice))
+  | .error _ => none
+
+/-- a two-token deposit with a large positive impact on a row whose impact pool holds 1 unit: the long side takes the whole
+    unit (1 short token = 1 USD), nothing is left for the short side — the total credit is 1 USD, not 1 + 2000 -/
+example : Gmx2.bonusOf Gmx2.defaultCfg { Gmx2.demoPool with impactPool := 1 } 2500 1000000 = some 1 := by decide +kernel
+
+/-- with 24 001 units the long side is paid its full share (≈ 24 000 short tokens), the short side's ≈ 2.4 long tokens are capped
+    by the ≈ 1 unit that is left: the total credit stays below 24 001 + 1 × 2000 USD (it was ≈ 24 000 + 4 800 before the repair) -/
+example : (Gmx2.bonusOf Gmx2.defaultCfg { Gmx2.demoPool with impactPool := 24001 } 2500 1000000).any
+    (fun b => decide (24001 < b ∧ b < 24001 + 2000 ∧ b < 24000 + 4800 - 100)) = true := by decide +kernel
 end Demeter
